@@ -1,20 +1,21 @@
 import Driver.OpsRead
+import TT.Run
 namespace Driver
 open TT TT.Tree TT.Spec
 
-/-- `transform.run` (no split): begin ++ concatMap write (read src) ++ end, as text -/
-def writeAll (fmt : String) (o : OutOpts) (enc : Option Str) (ts : List (Nat × Tree)) : Except Err Str := do
-  let nl : Str := ['\n']
-  let body ← ts.mapM fun (sid, t) =>
-    match fmt with
-    | "export" => (writeExport o sid t).map fun ls => (ls.map (· ++ nl)).flatten
-    | "brackets" => (writeBrackets o t).map fun r => match r with | some s => s ++ nl | none => []
-    | "discobrackets" => (writeDisco o t).map (· ++ nl)
-    | "terminals" => writeTerminals o t
-    | "tigerxml" => pure (((writeTiger sid t).map (· ++ nl)).flatten)
-    | _ => throw .other
-  if fmt == "tigerxml" then pure (((tigerBegin enc).map (· ++ nl)).flatten ++ body.flatten ++ tigerEnd)
-  else pure body.flatten
+def destFmt? : String → Option DestFmt
+  | "export" => some .export
+  | "brackets" => some .brackets
+  | "discobrackets" => some .discobrackets
+  | "terminals" => some .terminals
+  | "tigerxml" => some .tigerxml
+  | _ => none
+
+/-- `transform.run` (no split): the model is `TT.writeAll` / `TT.runFrom` (TT/Run.lean) -/
+def writeAll (fmt : String) (o : OutOpts) (enc : Option Str) (ts : List (Nat × Tree)) : Except Err Str :=
+  match destFmt? fmt with
+  | some f => TT.writeAll f o enc ts
+  | none => .error .other
 
 def groupBy (start stop : Str → Bool) : List Str → List (List Str) → Option (List Str) → List (List Str)
   | [], acc, _ => acc.reverse
@@ -50,6 +51,54 @@ def runOpConvert (op : String) (args : List String) : String :=
     | some (.ok ts) => match writeAll destfmt (decOutOpts destopts) (if enc == "n" then none else decS enc) ts with
       | .ok s => encS s
       | .error e => encErr e
+  | "convert_seq", [srcfmt, srcopts, destfmt, destopts, enc, calls, src] =>
+    -- `treetools transform SRC DEST --trans c1 c2 ...`: every tree goes through the calls in the order given
+    -- (each occurrence once); a tree for which a call returns None is not written
+    let io := decInOpts srcopts
+    let cs := if calls == "" then [] else (calls.splitOn ";").map parseTCall
+    let trees : Option (Except Err (List (Nat × Tree))) := match srcfmt with
+      | "export" => (decS src).map (readExport io)
+      | "brackets" => (decS src).map (readBrackets io)
+      | "discobrackets" => (decS src).map (readBrackets { io with disco := true })
+      | "tigerxml" => (decXSents src).map (readTiger io)
+      | _ => none
+    match trees with
+    | none => bad
+    | some (.error e) => encErr e
+    | some (.ok ts) =>
+      match destFmt? destfmt with
+      | none => bad
+      | some f =>
+        match TT.runFrom (cs.map fun c => applyT c) f (decOutOpts destopts) (if enc == "n" then none else decS enc) (.ok ts) with
+        | .ok s => encS s
+        | .error e => encErr e
+  | "convert_split", [srcfmt, srcopts, destfmt, destopts, enc, calls, spec, src] =>
+    -- `treetools transform SRC DEST --split spec ...`: the text of every part, in order (TT.runSplitFrom)
+    let io := decInOpts srcopts
+    let cs := if calls == "" then [] else (calls.splitOn ";").map parseTCall
+    let trees : Option (Except Err (List (Nat × Tree))) := match srcfmt with
+      | "export" => (decS src).map (readExport io)
+      | "brackets" => (decS src).map (readBrackets io)
+      | "discobrackets" => (decS src).map (readBrackets { io with disco := true })
+      | "tigerxml" => (decXSents src).map (readTiger io)
+      | _ => none
+    match trees, destFmt? destfmt, decS spec with
+    | some ts, some f, some sp =>
+      match TT.runSplitFrom (cs.map fun c => applyT c) f (decOutOpts destopts) (if enc == "n" then none else decS enc) sp ts with
+      | .ok parts => if parts.isEmpty then "EMPTY" else "|".intercalate (parts.map encS)
+      | .error e => encErr e
+    | _, _, _ => bad
+  | "transitions_cli", [srcopts, sys, pos, calls, src] =>
+    -- `treetools transitions SRC DEST sys --transform calls [--dest-opts pos]` on an export source: the lines written
+    let cs := if calls == "" then [] else (calls.splitOn ";").map parseTCall
+    let sy : Option TransSys := match sys with
+      | "topdown" => some .topdown | "inorder" => some .inorder | "gap" => some .gap | _ => none
+    match decS src, sy with
+    | some text, some sy =>
+      match TT.runTransitions (cs.map fun c => applyT c) sy (pos == "t") (readExport (decInOpts srcopts) text) with
+      | .ok ls => if ls.isEmpty then "EMPTY" else "|".intercalate (ls.map encS)
+      | .error e => encErr e
+    | _, _ => bad
   | "P.C03", [srcfmt, destfmt, srcv4, destv4, src, dest] =>
     match decLines src, decLines dest with
     | some sl, some dl =>
